@@ -36,8 +36,12 @@ Json Plan::to_json(bool with_data) const {
 
 static std::string g_repo = "/repo";
 
+static std::string g_featdir, g_owndir;
+
 static bool resolve(VFile &f, const std::string &repo) {
 	if (f.source.compare(0, 7, "corpus:") == 0) return read_file(repo + "/" + f.source.substr(7), f.data);
+	if (f.source.compare(0, 5, "feat:") == 0) return read_file(g_featdir + "/" + f.source.substr(5), f.data);
+	if (f.source.compare(0, 4, "own:") == 0) return read_file(g_owndir + "/" + f.source.substr(4), f.data);
 	if (f.source.compare(0, 7, "stress:") == 0) {
 		size_t c = f.source.find(':', 7);
 		if (c == std::string::npos) return false;
@@ -274,8 +278,32 @@ std::string stress_input(const std::string &fam, long n) {
 }  // namespace sb
 
 // ------------------------------------------------------------ workload
-struct CorpusEntry { std::string rel; std::string data; int target; bool pponly; };
-static std::vector<CorpusEntry> g_corpus;
+struct CorpusEntry { std::string rel; std::string data; int target; bool pponly; std::string source; };
+static std::vector<CorpusEntry> g_corpus;   // /repo/test/*.c followed by the feature snippets: the exhaustive spaces run over these
+static std::vector<CorpusEntry> g_own;      // cproc's own sources, preprocessed: large, sampled only
+static size_t g_ntest = 0;
+
+static void load_dir(const std::string &dir, const std::string &prefix, const std::string &relprefix, const char *suffix, std::vector<CorpusEntry> &out) {
+	DIR *d = opendir(dir.c_str());
+	if (!d) return;
+	std::vector<std::string> names;
+	size_t sl = strlen(suffix);
+	while (struct dirent *e = readdir(d)) {
+		std::string n = e->d_name;
+		if (n.size() > sl && n.compare(n.size() - sl, sl, suffix) == 0) names.push_back(n);
+	}
+	closedir(d);
+	std::sort(names.begin(), names.end());
+	for (auto &n : names) {
+		CorpusEntry c;
+		c.rel = relprefix + n;
+		c.source = prefix + n;
+		if (!read_file(dir + "/" + n, c.data)) continue;
+		c.target = 1 + (int)(hash_str(n) % 3);
+		c.pponly = n.compare(0, 3, "pp-") == 0 && (hash_str(n) & 8);
+		out.push_back(c);
+	}
+}
 
 static void load_corpus() {
 	std::string dir = g_repo + "/test";
@@ -301,8 +329,12 @@ static void load_corpus() {
 		}
 		std::string tmp;
 		c.pponly = !read_file(dir + "/" + base + ".qbe", tmp) && read_file(dir + "/" + base + ".pp", tmp);
+		c.source = "corpus:" + c.rel;
 		g_corpus.push_back(c);
 	}
+	g_ntest = g_corpus.size();
+	if (!g_featdir.empty()) load_dir(g_featdir, "feat:", "feat/", ".c", g_corpus);
+	if (!g_owndir.empty()) load_dir(g_owndir, "own:", "own/", ".i", g_own);
 }
 
 struct StressFam { const char *name; std::vector<long> knobs; bool pponly; };
@@ -349,13 +381,20 @@ static void set_corpus(Plan &p, size_t idx, Rng &r, bool vary_target) {
 	const CorpusEntry &c = g_corpus[idx % g_corpus.size()];
 	VFile f;
 	f.name = c.rel;
-	f.source = "corpus:" + c.rel;
+	f.source = c.source;
 	f.data = c.data;
 	p.files.push_back(f);
 	p.target = c.target;
 	p.pponly = c.pponly;
 	if (vary_target && c.rel.find('+') == std::string::npos && r.coin(3, 10)) p.target = 1 + (int)r.below(3);
 	if (vary_target && !c.pponly && r.coin(1, 12)) p.pponly = true;
+}
+
+static void set_own(Plan &p, Rng &r) {
+	const CorpusEntry &c = g_own[r.below((uint32_t)g_own.size())];
+	p.files.push_back({c.rel, c.source, c.data});
+	p.target = 1 + (int)r.below(3);
+	p.pponly = r.coin(1, 8);
 }
 
 static void set_stress(Plan &p, Rng &r, bool big) {
@@ -458,7 +497,8 @@ static Plan gen_c20(uint64_t seed, uint64_t index) {
 	Rng r(seed);
 	Plan p;
 	p.prop = "C20";
-	if (r.coin(17, 20)) {
+	if (!g_own.empty() && r.coin(1, 25)) set_own(p, r);
+	else if (r.coin(17, 20)) {
 		set_corpus(p, (size_t)(index % g_corpus.size()), r, true);
 		if (r.coin(1, 10)) {
 			// multi-file invocation: two or three corpus files of the same mode on one command line
@@ -469,7 +509,7 @@ static Plan gen_c20(uint64_t seed, uint64_t index) {
 				bool dup = false;
 				for (auto &f : p.files) if (f.name == c.rel) dup = true;
 				if (dup) continue;
-				p.files.push_back({c.rel, "corpus:" + c.rel, c.data});
+				p.files.push_back({c.rel, c.source, c.data});
 			}
 		}
 	} else set_stress(p, r, r.coin(1, 4));
@@ -481,7 +521,8 @@ static Plan gen_c03(uint64_t seed, uint64_t index) {
 	Rng r(seed);
 	Plan p;
 	p.prop = "C03";
-	set_corpus(p, (size_t)(index % g_corpus.size()), r, true);
+	if (!g_own.empty() && r.coin(1, 30)) set_own(p, r);
+	else set_corpus(p, (size_t)(index % g_corpus.size()), r, true);
 	if (r.coin(1, 2)) perturb_schedule(p, r, true);
 	else { p.outbuf = (int)r.below(7); p.dash_o = r.coin(1, 2); }
 	Probe pr = probe_counts(p);
@@ -497,11 +538,12 @@ static Plan gen_c19(uint64_t seed, uint64_t index) {
 	p.prop = "C19";
 	bool stress = r.coin(1, 8);
 	if (stress) set_stress(p, r, r.coin(1, 3));
+	else if (!g_own.empty() && r.coin(1, 30)) set_own(p, r);
 	else {
 		set_corpus(p, (size_t)(index % g_corpus.size()), r, true);
 		if (r.coin(1, 10)) {
 			const CorpusEntry &c = g_corpus[r.below((uint32_t)g_corpus.size())];
-			if (c.pponly == p.pponly && c.rel != p.files[0].name) p.files.push_back({c.rel, "corpus:" + c.rel, c.data});
+			if (c.pponly == p.pponly && c.rel != p.files[0].name) p.files.push_back({c.rel, c.source, c.data});
 		}
 	}
 	if (r.coin(1, 2)) perturb_schedule(p, r, true);
@@ -816,6 +858,8 @@ int main(int argc, char **argv) {
 		} else pos.push_back(a);
 	}
 	if (opt.count("repo")) g_repo = opt["repo"];
+	if (opt.count("features")) g_featdir = opt["features"];
+	if (opt.count("own")) g_owndir = opt["own"];
 	static char selfpath[4096];
 	{
 		ssize_t sl = readlink("/proc/self/exe", selfpath, sizeof selfpath - 1);
@@ -832,7 +876,7 @@ int main(int argc, char **argv) {
 
 	if (cmd == "space") {
 		const Space &s = space(opt["name"]);
-		printf("{\"name\":\"%s\",\"total\":%llu,\"corpus\":%zu}\n", s.name.c_str(), (unsigned long long)s.total, g_corpus.size());
+		printf("{\"name\":\"%s\",\"total\":%llu,\"corpus\":%zu,\"test_files\":%zu,\"own\":%zu}\n", s.name.c_str(), (unsigned long long)s.total, g_corpus.size(), g_ntest, g_own.size());
 		return 0;
 	}
 	if (cmd == "ref") {
@@ -921,7 +965,7 @@ int main(int argc, char **argv) {
 		if (p.dash_o) st.axes["-o"]++;
 		if (p.stack_shift) st.axes["stack-shift"]++;
 		if (p.files.size() > 1) st.axes["multi-file"]++;
-		st.workloads[p.files[0].source.compare(0, 7, "stress:") == 0 ? "stress:" + p.files[0].source.substr(7, p.files[0].source.find(':', 7) - 7) : "corpus"]++;
+		st.workloads[p.files[0].source.compare(0, 7, "stress:") == 0 ? "stress:" + p.files[0].source.substr(7, p.files[0].source.find(':', 7) - 7) : p.files[0].source.substr(0, p.files[0].source.find(':'))]++;
 		for (void *f : o.fns) st.fns.insert(f);
 		if (hf && index < hashes_below) fprintf(hf, "%llu %s\n", (unsigned long long)index, hex64(mix(o.r.ev_hash, mix(o.r.sink_hash, (uint64_t)o.r.kind * 256 + (uint64_t)o.r.status))).c_str());
 		if (st.samples.size() < 3 && (n % 211) == 0) {
@@ -959,7 +1003,7 @@ int main(int argc, char **argv) {
 		if (system(("mkdir -p " + replay_dir).c_str()) != 0) {}
 		std::string path = replay_dir + "/" + prop + "-" + hex64(hash_str(vm.cls + vm.sig)).substr(0, 12) + (sanitized_build() ? "-san" : "") + ".json";
 		write_file(path, rep.str() + "\n");
-		std::string rc = std::string(selfpath) + " replay " + path + " --repo " + g_repo + " >/dev/null 2>&1";
+		std::string rc = std::string(selfpath) + " replay " + path + " --repo " + g_repo + (g_featdir.empty() ? "" : " --features " + g_featdir) + (g_owndir.empty() ? "" : " --own " + g_owndir) + " >/dev/null 2>&1";
 		int rr = system(rc.c_str());
 		if (!(WIFEXITED(rr) && WEXITSTATUS(rr) == 1)) {
 			printf("HARNESS-ERROR replay-gate: %s did not reproduce in a fresh process (status 0x%x)\n", path.c_str(), rr);
